@@ -4,12 +4,23 @@ import (
 	"fmt"
 	"go/ast"
 	"go/token"
+	"go/types"
+	"strings"
 )
 
 // Group Diff: the literals of /repo/diff/diff.go the C08 theorems depend on.
 //
 //	ctxC            = the function-local `const C = 3` of Diff (number of context lines)
 //	no_newline_msg  = the string literal appended by `l[len(l)-1] += "..."` in lines
+//	lines_sep       = the separator literal of the strings.SplitAfter call in lines
+//	fmt_header_diff, fmt_header_old, fmt_header_new, fmt_hunk
+//	                = the format strings of the four fmt.Fprintf(&out, ...) calls of Diff, in
+//	                  source order; diff_fprintf_args = the argument expressions of each call
+//	cmp_diff_args   = the four argument expressions of the diff.Diff call in testscript's
+//	                  doCmdCmp (the consumer named by the property); the generator itself fails
+//	                  unless the 2nd and 4th are []byte(A) and []byte(B) where `A == B` is the
+//	                  comparison that decides whether the command fails, A is read from the
+//	                  first file and B is the (for cmpenv: expanded) text of the second
 //
 // Both live inside function bodies, so they are found by walking the bodies; the
 // generator fails (MISSING) when the shape is gone or ambiguous.
@@ -77,5 +88,141 @@ func init() {
 				g.emitBytesLit("no_newline_msg", "diff.lines: text appended to an unterminated last line", found[0])
 			}
 		}
+		// --- the separator of strings.SplitAfter in func lines
+		if fd := g.funcDecl("diff", "lines"); fd != nil && fd.Body != nil {
+			var seps []string
+			ast.Inspect(fd.Body, func(n ast.Node) bool {
+				ce, ok := n.(*ast.CallExpr)
+				if !ok || types.ExprString(ce.Fun) != "strings.SplitAfter" || len(ce.Args) != 2 {
+					return true
+				}
+				if s, ok := g.str(ce.Args[1]); ok {
+					seps = append(seps, s)
+				}
+				return true
+			})
+			if len(seps) != 1 {
+				g.fail("diff.lines: expected exactly one strings.SplitAfter(_, \"literal\"), found %d", len(seps))
+			} else {
+				g.emitBytesLit("lines_sep", "diff.lines: separator of strings.SplitAfter", seps[0])
+			}
+		}
+		// --- the four Fprintf calls of Diff
+		if fd := g.funcDecl("diff", "Diff"); fd != nil && fd.Body != nil {
+			type call struct {
+				format string
+				args   []string
+			}
+			var calls []call
+			ast.Inspect(fd.Body, func(n ast.Node) bool {
+				ce, ok := n.(*ast.CallExpr)
+				if !ok || types.ExprString(ce.Fun) != "fmt.Fprintf" || len(ce.Args) < 2 {
+					return true
+				}
+				c := call{}
+				if s, ok := g.str(ce.Args[1]); ok && types.ExprString(ce.Args[0]) == "&out" {
+					c.format = s
+				} else {
+					g.fail("diff.Diff: fmt.Fprintf(%s, %s, ...): destination is not &out or the format is not a string literal",
+						types.ExprString(ce.Args[0]), types.ExprString(ce.Args[1]))
+					return true
+				}
+				for _, a := range ce.Args[2:] {
+					c.args = append(c.args, types.ExprString(a))
+				}
+				calls = append(calls, c)
+				return true
+			})
+			// any other way of writing to out than these calls and out.WriteString(s) of the chunk lines
+			var writes []string
+			ast.Inspect(fd.Body, func(n ast.Node) bool {
+				if ce, ok := n.(*ast.CallExpr); ok {
+					if f := types.ExprString(ce.Fun); strings.HasPrefix(f, "out.") && f != "out.Bytes" {
+						writes = append(writes, f+"("+exprList(ce.Args)+")")
+					}
+				}
+				return true
+			})
+			if len(calls) != 4 {
+				g.fail("diff.Diff: expected four fmt.Fprintf(&out, ...) calls (three header lines, one hunk header), found %d", len(calls))
+			} else if len(writes) != 1 || writes[0] != "out.WriteString(s)" {
+				g.fail("diff.Diff: expected the chunk lines to be written by exactly one out.WriteString(s), found %v", writes)
+			} else {
+				names := []string{"fmt_header_diff", "fmt_header_old", "fmt_header_new", "fmt_hunk"}
+				var all []string
+				for i, c := range calls {
+					g.emitBytesLit(names[i], fmt.Sprintf("diff.Diff: format of Fprintf call %d", i+1), c.format)
+					var parts []string
+					for _, a := range c.args {
+						parts = append(parts, coqBytes(a))
+					}
+					all = append(all, "["+strings.Join(parts, "; ")+"]")
+				}
+				fmt.Fprintf(&g.buf, "(* diff.Diff: argument expressions of the four Fprintf calls: %v *)\nDefinition diff_fprintf_args : list (list (list byte)) :=\n  [%s].\n\n",
+					calls, strings.Join(all, ";\n   "))
+			}
+		}
+		// --- the consumer: which texts doCmdCmp hands to diff.Diff
+		if fd := g.funcDecl("testscript", "TestScript.doCmdCmp"); fd != nil && fd.Body != nil {
+			var dcalls [][]string
+			var eqs []string
+			assigned := map[string][]string{} // variable -> right-hand sides assigned to it
+			ast.Inspect(fd.Body, func(n ast.Node) bool {
+				switch n := n.(type) {
+				case *ast.CallExpr:
+					if types.ExprString(n.Fun) == "diff.Diff" {
+						var as []string
+						for _, a := range n.Args {
+							as = append(as, types.ExprString(a))
+						}
+						dcalls = append(dcalls, as)
+					}
+				case *ast.AssignStmt:
+					for i, l := range n.Lhs {
+						if id, ok := l.(*ast.Ident); ok && i < len(n.Rhs) && len(n.Lhs) == len(n.Rhs) {
+							assigned[id.Name] = append(assigned[id.Name], types.ExprString(n.Rhs[i]))
+							if be, ok := n.Rhs[i].(*ast.BinaryExpr); ok && be.Op == token.EQL {
+								eqs = append(eqs, types.ExprString(be.X), types.ExprString(be.Y))
+							}
+						}
+					}
+				}
+				return true
+			})
+			unwrap := func(s string) (string, bool) {
+				if strings.HasPrefix(s, "[]byte(") && strings.HasSuffix(s, ")") {
+					return s[len("[]byte(") : len(s)-1], true
+				}
+				return "", false
+			}
+			switch {
+			case len(dcalls) != 1 || len(dcalls[0]) != 4:
+				g.fail("testscript.doCmdCmp: expected exactly one diff.Diff call with four arguments, found %v", dcalls)
+			case len(eqs) != 2:
+				g.fail("testscript.doCmdCmp: expected exactly one `v := A == B` deciding the comparison, found %v", eqs)
+			default:
+				a, okA := unwrap(dcalls[0][1])
+				b, okB := unwrap(dcalls[0][3])
+				if !okA || !okB || a != eqs[0] || b != eqs[1] {
+					g.fail("testscript.doCmdCmp: diff.Diff is given (%s, %s) but the texts compared are (%s, %s)", dcalls[0][1], dcalls[0][3], eqs[0], eqs[1])
+				} else if fmt.Sprint(assigned[a]) != "[ts.ReadFile(name1)]" {
+					g.fail("testscript.doCmdCmp: %s is no longer just ts.ReadFile(name1): %v", a, assigned[a])
+				} else if fmt.Sprint(assigned[b]) != "[string(data) ts.expand("+b+")]" {
+					g.fail("testscript.doCmdCmp: %s is no longer string(data), then ts.expand(%s) for cmpenv: %v", b, b, assigned[b])
+				} else if dcalls[0][0] != "name1" || dcalls[0][2] != "name2" {
+					g.fail("testscript.doCmdCmp: diff.Diff is no longer labelled with name1/name2: %v", dcalls[0])
+				} else {
+					g.emitBytesList("cmp_diff_args", "testscript.doCmdCmp: arguments of diff.Diff; compared: "+eqs[0]+" == "+eqs[1], dcalls[0])
+				}
+			}
+		}
 	}
+}
+
+func exprList(es []ast.Expr) string {
+	var p []string
+	for _, e := range es {
+		p = append(p, types.ExprString(e))
+	}
+	return strings.Join(p, ", ")
 }
